@@ -100,6 +100,20 @@ Proof.
     destruct (e_seq p =? e_seq q); eauto.
 Qed.
 
+Lemma removeN_in : forall s x l, In x (removeN s l) <-> In x l /\ x <> s.
+Proof.
+  intros s x l. unfold removeN. rewrite filter_In. split; intros [H1 H2]; split; try assumption.
+  - intros ->. rewrite N.eqb_refl in H2. discriminate.
+  - apply negb_true_iff. apply N.eqb_neq. assumption.
+Qed.
+
+Lemma memN_in : forall s l, memN s l = true <-> In s l.
+Proof.
+  intros s l. unfold memN. rewrite existsb_exists. split.
+  - intros [x [H1 H2]]. apply N.eqb_eq in H2. now subst.
+  - intros H. exists s. split; [assumption | apply N.eqb_refl].
+Qed.
+
 (* ---------- the loop invariant ---------- *)
 Record LI0 (i m : N) (h : list op) (st : state) : Prop := {
   li_init : initial st = i;
@@ -115,7 +129,10 @@ Record LI0 (i m : N) (h : list op) (st : state) : Prop := {
   li_pend : forall p, In p (pending st) ->
              i < e_seq p /\ e_seq p <= e_hi p /\ (forall s, e_seq p <= s -> s <= e_hi p -> covered h s);
   li_sorted : sorted_from 0 (pending st);
-  li_q2 : next st = i + 1 \/ covered h (next st - 1) \/ (exists p, In p (pending st) /\ e_seq p = next st)
+  li_q2 : next st = i + 1 \/ covered h (next st - 1) \/ (exists p, In p (pending st) /\ e_seq p = next st);
+  li_absk : forall s, sk_mem s (abandoned st) = true -> sk_mem s (skipped st) = false;
+  li_recv : forall s, In s (received st) ->
+              sk_mem s (skipped st) = false /\ (s < next st \/ exists p, In p (pending st) /\ e_seq p = s)
 }.
 
 Lemma LI0_cons : forall i m h st o, LI0 i m h st -> LI0 i m (o :: h) st.
@@ -130,7 +147,7 @@ Qed.
 Lemma LI0_init : forall i m, LI0 i m [] (init i m).
 Proof.
   intros i m. constructor; cbn;
-    first [ reflexivity | exact I | lia | (intros ? ? []) | (intros ? []) | apply NoDup_nil | (intros; lia) | (now left) ].
+    first [ reflexivity | exact I | lia | (intros ? ? []) | (intros ? []) | apply NoDup_nil | (intros; lia) | (now left) | (intros; reflexivity) ].
 Qed.
 
 (* the truncated / original popped entry keeps the facts recorded for pending entries *)
@@ -140,9 +157,14 @@ Lemma popped_facts : forall i h l e r,
   pop_pending l = Some (e, r) ->
   i < e_seq e /\ e_seq e <= e_hi e /\ (forall s, e_seq e <= s -> s <= e_hi e -> covered h s)
   /\ (forall p, In p r -> In p l) /\ sorted_from (e_seq e) r
-  /\ (exists p0 l0, l = p0 :: l0 /\ e_seq e = e_seq p0).
+  /\ (exists p0 l0, l = p0 :: l0 /\ e_seq e = e_seq p0)
+  /\ (forall x, In x l -> In x r \/ e_seq x = e_seq e).
 Proof.
   intros i h l e r Hp Hs Hpop. destruct (pop_spec _ _ _ Hpop) as [pre [e0 [Hl [Hpre [Hse [Hk Hc]]]]]].
+  assert (Hsplit : forall x, In x l -> In x r \/ e_seq x = e_seq e).
+  { intros x Hx. rewrite Hl in Hx. apply in_app_or in Hx as [Hx|[Hx|Hx]]; [right | right | now left].
+    - destruct (Hpre _ Hx). lia.
+    - subst x. lia. }
   assert (He0 : In e0 l) by (subst l; apply in_or_app; right; now left).
   destruct (Hp _ He0) as [A1 [A2 A3]].
   assert (Hr : forall p, In p r -> In p l) by (intros p Hin; subst l; apply in_or_app; right; now right).
@@ -154,13 +176,13 @@ Proof.
     - exists x, (pre ++ e0 :: r). split; [assumption|]. destruct (Hpre x (or_introl eq_refl)). lia. }
   destruct Hc as [[-> Hnt]|[Hrg [q [r' [Hrq [Hne [Hle ->]]]]]]].
   - repeat split; assumption.
-  - assert (Hq : e_seq e0 <= e_seq q).
+  - revert Hsplit. assert (Hq : e_seq e0 <= e_seq q).
     { subst r. cbn in Hsr. tauto. }
     unfold e_hi in *; cbn [e_seq e_end] in *.
     unfold is_range in Hrg. destruct (e_kind e0); try discriminate.
     assert (e_end e0 =? 0 = false) by lia. rewrite H in *.
     assert (e_seq q - 1 =? 0 = false) by lia. rewrite H0.
-    repeat split; try assumption; try lia.
+    intros Hsplit. repeat split; try assumption; try lia.
     intros s S1 S2. apply A3; lia.
 Qed.
 
@@ -173,7 +195,7 @@ Proof.
   destruct (e_seq p =? next st) eqn:E1.
   { (* the expected sequence is on top: pop and cache *)
     destruct (pop_pending (p :: l)) as [[e r]|] eqn:Epop; [|discriminate]. inversion H; subst st'; clear H.
-    destruct (popped_facts i h _ _ _ li_pend0 li_sorted0 Epop) as [F1 [F2 [F3 [F4 [F5 [p0 [l0 [F6 F7]]]]]]]].
+    destruct (popped_facts i h _ _ _ li_pend0 li_sorted0 Epop) as [F1 [F2 [F3 [F4 [F5 [[p0 [l0 [F6 F7]]] F8]]]]]].
     inversion F6; subst p0 l0; clear F6.
     assert (Hn : e_seq e = next st) by lia.
     assert (Hnext : next (add_to_cache (set_pending st r) e false) = e_hi e + 1).
@@ -192,11 +214,13 @@ Proof.
     - intros q Hq. apply li_pend0. auto.
     - eapply sorted_from_weaken; [eassumption | lia].
     - right; left. replace (e_hi e + 1 - 1) with (e_hi e) by lia. apply F3; lia.
+    - intros s Hs. apply removeN_in in Hs as [Hs1 Hs2]. destruct (li_recv0 s Hs1) as [R1 R2]. split; [assumption|].
+      destruct R2 as [R2|[x [X1 X2]]]; [left; lia|]. destruct (F8 x X1) as [X3|X3]; [right; exists x; auto | lia].
   }
   destruct (e_seq p <? next st) eqn:E2.
   { (* stale entry below nextSequence: dropped, nextSequence extended when it is a range reaching past it *)
     destruct (pop_pending (p :: l)) as [[e r]|] eqn:Epop; [|discriminate]. inversion H; subst st'; clear H.
-    destruct (popped_facts i h _ _ _ li_pend0 li_sorted0 Epop) as [F1 [F2 [F3 [F4 [F5 [p0 [l0 [F6 F7]]]]]]]].
+    destruct (popped_facts i h _ _ _ li_pend0 li_sorted0 Epop) as [F1 [F2 [F3 [F4 [F5 [[p0 [l0 [F6 F7]]] F8]]]]]].
     inversion F6; subst p0 l0; clear F6.
     assert (Hq2 : forall n, next st <= n ->
               (next st = i + 1 \/ covered h (next st - 1) \/ (exists p1, In p1 (p :: l) /\ e_seq p1 = next st)) ->
@@ -223,11 +247,15 @@ Proof.
       + intros q Hq. apply li_pend0. auto.
       + eapply sorted_from_weaken; [eassumption | lia].
       + apply Hq2; [lia | assumption |]. right. replace (e_end e + 1 - 1) with (e_end e) by lia. apply F3; lia.
+      + intros s Hs. destruct (li_recv0 s Hs) as [R1 R2]. split; [assumption|].
+        destruct R2 as [R2|[x [X1 X2]]]; [left; lia|]. destruct (F8 x X1) as [X3|X3]; [right; exists x; auto | left; lia].
     - constructor; cbn [set_next set_pending initial maxp next pending received skipped abandoned delivered];
         try assumption; try lia.
       + intros q Hq. apply li_pend0. auto.
       + eapply sorted_from_weaken; [eassumption | lia].
       + apply Hq2; [lia | assumption | now left].
+      + intros s Hs. destruct (li_recv0 s Hs) as [R1 R2]. split; [assumption|].
+        destruct R2 as [R2|[x [X1 X2]]]; [now left|]. destruct (F8 x X1) as [X3|X3]; [right; exists x; auto | left; lia].
   }
   destruct ((maxp st <? N.of_nat (length (p :: l))) || e_aged p) eqn:E3; [|discriminate].
   (* too many or too old: skip everything up to the oldest pending entry *)
@@ -246,6 +274,14 @@ Proof.
   - rewrite Ep. assumption.
   - rewrite Ep. assumption.
   - right; right. exists p. rewrite Ep. split; [now left | reflexivity].
+  - intros s Hs. pose proof (sk_below_mem _ _ _ li_abbelow0 Hs). rewrite sk_mem_push, (li_absk0 s Hs). cbn. lia.
+  - intros s Hs. destruct (li_recv0 s Hs) as [R1 R2]. rewrite sk_mem_push, R1. cbn [orb].
+    destruct R2 as [R2|[x [X1 X2]]].
+    + split; [lia | left; lia].
+    + assert (e_seq p <= s).
+      { cbn in li_sorted0. destruct X1 as [<-|X1]; [lia|].
+        pose proof (sorted_from_in _ _ _ (proj2 li_sorted0) X1). lia. }
+      split; [lia|]. right. exists x. rewrite Ep. auto.
 Qed.
 
 Lemma loop_LI0 : forall fuel i m h st, LI0 i m h st -> LI0 i m h (add_pending_loop fuel st).
@@ -318,7 +354,7 @@ Proof.
   destruct L. rewrite Ep in *.
   destruct (e_seq p =? next st) eqn:E1.
   { destruct (pop_pending (p :: l)) as [[e r]|] eqn:Epop; [|discriminate]. inversion H; subst st'; clear H.
-    destruct (popped_facts i h _ _ _ li_pend0 li_sorted0 Epop) as [F1 [F2 [F3 [F4 [F5 [p0 [l0 [F6 F7]]]]]]]].
+    destruct (popped_facts i h _ _ _ li_pend0 li_sorted0 Epop) as [F1 [F2 [F3 [F4 [F5 [[p0 [l0 [F6 F7]]] F8]]]]]].
     inversion F6; subst p0 l0; clear F6.
     unfold add_to_cache, e_hi in *; cbn. destruct (e_end e =? 0); [|lia].
     destruct (next st <=? e_seq e) eqn:E; lia. }
@@ -350,26 +386,13 @@ Qed.
 Lemma add_pending_next_mono : forall i m h st, LI0 i m h st -> next st <= next (add_pending st).
 Proof. intros. eapply loop_next_mono; eassumption. Qed.
 
-Lemma removeN_in : forall s x l, In x (removeN s l) <-> In x l /\ x <> s.
-Proof.
-  intros s x l. unfold removeN. rewrite filter_In. split; intros [H1 H2]; split; try assumption.
-  - intros ->. rewrite N.eqb_refl in H2. discriminate.
-  - apply negb_true_iff. apply N.eqb_neq. assumption.
-Qed.
-
-Lemma memN_in : forall s l, memN s l = true <-> In s l.
-Proof.
-  intros s l. unfold memN. rewrite existsb_exists. split.
-  - intros [x [H1 H2]]. apply N.eqb_eq in H2. now subst.
-  - intros H. exists s. split; [assumption | apply N.eqb_refl].
-Qed.
-
 (* expected sequence arrives: cached immediately *)
 Lemma direct_LI0 : forall i m h st e rcv,
   LI0 i m h st -> quiet st -> e_end e = 0 -> e_seq e = next st -> covered h (e_seq e) ->
+  (forall s, In s rcv -> In s (received st) \/ s = e_seq e) ->
   LI0 i m h (add_to_cache (set_received st rcv) e false).
 Proof.
-  intros i m h st e rcv [] Q He Hs Hc.
+  intros i m h st e rcv [] Q He Hs Hc Hrcv.
   assert (Hn : next (add_to_cache (set_received st rcv) e false) = next st + 1).
   { unfold add_to_cache; cbn. rewrite He. cbn. destruct (next st <=? e_seq e) eqn:E; lia. }
   constructor; rewrite ?Hn; cbn [add_to_cache set_received initial maxp pending received skipped abandoned delivered];
@@ -384,28 +407,36 @@ Proof.
   - intros s S1 S2. destruct (N.ltb_spec s (next st)); [now apply li_hwm0|]. left.
     replace s with (e_seq e) by lia. assumption.
   - right; left. replace (next st + 1 - 1) with (e_seq e) by lia. assumption.
+  - intros s Hin. apply removeN_in in Hin as [Hin Hne]. destruct (Hrcv s Hin) as [Hin'|Hin']; [|congruence].
+    destruct (li_recv0 s Hin') as [R1 R2]. split; [assumption|]. destruct R2 as [R2|R2]; [left; lia | now right].
 Qed.
 
 (* a sequence above the expected one is buffered *)
 Lemma push_LI0 : forall i m h st e rcv,
   LI0 i m h st -> next st <= e_seq e -> e_seq e <= e_hi e -> (forall s, e_seq e <= s -> s <= e_hi e -> covered h s) ->
+  (forall s, In s rcv -> In s (received st) \/ s = e_seq e) ->
   LI0 i m h (set_pending (set_received st rcv) (pq_push e (pending st))).
 Proof.
-  intros i m h st e rcv [] Hlt Hhi Hc.
+  intros i m h st e rcv [] Hlt Hhi Hc Hrcv.
   constructor; cbn [set_pending set_received initial maxp next pending received skipped abandoned delivered]; try assumption.
   - intros p Hp. apply in_pq_push in Hp as [->|Hp]; [|auto]. repeat split; [lia | assumption | assumption].
   - apply sorted_from_push; [assumption | lia].
   - destruct li_q3 as [H|[H|[p [H1 H2]]]]; [now left | now right; left |].
     right; right. exists p. split; [apply in_pq_push; now right | assumption].
+  - intros s Hin. destruct (Hrcv s Hin) as [Hin'| ->].
+    + destruct (li_recv0 s Hin') as [R1 R2]. split; [assumption|]. destruct R2 as [R2|[x [X1 X2]]]; [now left|].
+      right. exists x. split; [apply in_pq_push; now right | assumption].
+    + split; [apply sk_below_nomem with (n := next st); assumption|]. right. exists e. split; [apply in_pq_push; now left | reflexivity].
 Qed.
 
 (* a skipped sequence turns up: cached as late, then removed from the skipped list *)
 Lemma late_LI0 : forall i m h st e rcv,
   LI0 i m h st -> e_end e = 0 -> sk_mem (e_seq e) (skipped st) = true -> covered h (e_seq e) ->
+  (forall s, In s rcv -> In s (received st) \/ s = e_seq e) ->
   let st2 := add_to_cache (set_received st rcv) e true in
   LI0 i m h (set_skipped st2 (sk_diff (e_seq e) (e_seq e) (skipped st2))) /\ next st2 = next st.
 Proof.
-  intros i m h st e rcv [] He Hsk Hc st2.
+  intros i m h st e rcv [] He Hsk Hc Hrcv st2.
   assert (Hlt : e_seq e < next st) by (exact (sk_below_mem _ _ _ li_skbelow0 Hsk)).
   assert (Hn : next st2 = next st).
   { unfold st2, add_to_cache; cbn. rewrite He. cbn. destruct (next st <=? e_seq e) eqn:E; lia. }
@@ -422,6 +453,9 @@ Proof.
   - intros s S1 S2. destruct (li_hwm0 s S1 S2) as [C|[C|C]]; [now left | | now right; right].
     destruct (N.eq_dec s (e_seq e)) as [->|Hne]; [now left|].
     right; left. rewrite sk_mem_diff, C. cbn. apply negb_true_iff. lia.
+  - intros s Hs. rewrite sk_mem_diff, (li_absk0 s Hs). reflexivity.
+  - intros s Hin. apply removeN_in in Hin as [Hin Hne]. destruct (Hrcv s Hin) as [Hin'|Hin']; [|congruence].
+    destruct (li_recv0 s Hin') as [R1 R2]. rewrite sk_mem_diff, R1. split; [reflexivity | assumption].
 Qed.
 
 Lemma quiet_same_pending : forall st st', pending st' = pending st -> next st' = next st -> quiet st -> quiet st'.
@@ -436,23 +470,26 @@ Proof.
   assert (Hnz : next st =? 0 = false) by (destruct L; lia).
   rewrite Hnz, orb_false_r.
   destruct (e_seq e =? next st) eqn:E3.
-  { apply add_pending_I0. apply direct_LI0; try assumption. lia. }
+  { apply add_pending_I0. apply direct_LI0; try assumption; [lia | intros s [<-|Hs]; auto]. }
   cbn [set_received next pending maxp initial].
   destruct (next st <? e_seq e) eqn:E4.
   { assert (LP : LI0 i m h (set_pending (set_received st (e_seq e :: received st)) (pq_push e (pending st)))).
     { assert (Hhi : e_hi e = e_seq e) by (unfold e_hi; rewrite He; reflexivity).
-      apply push_LI0; rewrite ?Hhi; try assumption; try lia.
+      apply push_LI0; rewrite ?Hhi; try assumption; try lia; [|intros s [<-|Hs]; auto].
       intros s S1 S2. replace s with (e_seq e) by lia. assumption. }
     match goal with |- context[if ?c then _ else _] => destruct c end; [apply add_pending_I0; assumption|].
     split; [assumption|]. intros p Hp. cbn in Hp |- *. apply in_pq_push in Hp as [->|Hp]; [lia | auto]. }
   destruct (initial st <? e_seq e) eqn:E5.
   { assert (Hsk : sk_mem (e_seq e) (skipped st) = true).
     { destruct (sk_mem (e_seq e) (skipped st)); [reflexivity|]. cbn in E1. lia. }
-    destruct (late_LI0 i m h st e (e_seq e :: received st) L He Hsk Hc) as [L' Hn].
+    destruct (late_LI0 i m h st e (e_seq e :: received st) L He Hsk Hc ltac:(intros s [<-|Hs]; auto)) as [L' Hn].
     split; [exact L'|]. eapply quiet_same_pending; [| |exact Q]; cbn; [reflexivity|].
     cbn in Hn. exact Hn. }
-  (* at or below the initial sequence and in the skipped list: impossible, but harmless *)
-  split; [|exact Q]. destruct L. constructor; cbn; assumption.
+  (* at or below the initial sequence and in the skipped list: impossible *)
+  exfalso.
+  assert (Hsk : sk_mem (e_seq e) (skipped st) = true).
+  { destruct (sk_mem (e_seq e) (skipped st)); [reflexivity|]. cbn in E1. lia. }
+  destruct L. pose proof (sk_wf_from_lb _ _ _ li_skwf0 Hsk). lia.
 Qed.
 
 Lemma process_range_I0 : forall i m h st lo hi a,
@@ -467,14 +504,16 @@ Proof.
     - intros d Hd. destruct (li_dl0 d Hd) as [D1 D2]. split; [assumption|]. rewrite sk_mem_diff, D2. reflexivity.
     - intros s S1 S2. destruct (li_hwm0 s S1 S2) as [C|[C|C]]; [now left | | now right; right].
       destruct ((lo <=? s) && (s <=? hi)) eqn:E; [left; apply Hc; lia|].
-      right; left. rewrite sk_mem_diff, C, E. reflexivity. }
+      right; left. rewrite sk_mem_diff, C, E. reflexivity.
+    - intros s Hs. rewrite sk_mem_diff, (li_absk0 s Hs). reflexivity.
+    - intros s Hs. destruct (li_recv0 s Hs) as [R1 R2]. rewrite sk_mem_diff, R1. split; [reflexivity | assumption]. }
   destruct (next st <=? lo) eqn:E2; [|split; assumption].
   apply add_pending_I0.
   replace (set_pending st (pq_push (mkE lo hi KUnused a) (pending st)))
     with (set_pending (set_received st (received st)) (pq_push (mkE lo hi KUnused a) (pending st)))
     by (destruct st; reflexivity).
   assert (Hhi : e_hi (mkE lo hi KUnused a) = hi) by (unfold e_hi; cbn; destruct (hi =? 0) eqn:E; lia).
-  apply push_LI0; try assumption; rewrite ?Hhi; cbn [e_seq]; try lia. assumption.
+  apply push_LI0; try assumption; rewrite ?Hhi; cbn [e_seq]; try lia; [assumption | intros s Hs; now left].
 Qed.
 
 Lemma step_I0 : forall i m h st o, I0 i m h st -> I0 i m (o :: h) (step st o).
@@ -495,6 +534,8 @@ Proof.
     + apply sk_below_app; assumption.
     + intros d Hd. destruct (li_dl0 d Hd). split; [assumption | reflexivity].
     + intros s S1 S2. destruct (li_hwm0 s S1 S2) as [C|[C|C]]; [now left | |]; right; right; rewrite sk_mem_app, C; [reflexivity | apply orb_true_r].
+    + intros s Hs. reflexivity.
+    + intros s Hs. destruct (li_recv0 s Hs) as [R1 R2]. split; [reflexivity | assumption].
 Qed.
 
 Lemma step_next_mono : forall i m h st o, I0 i m h st -> next st <= next (step st o).
@@ -507,7 +548,7 @@ Proof.
     assert (Hnz : next st =? 0 = false) by (destruct L; lia).
     rewrite Hnz, orb_false_r.
     destruct (e_seq e =? next st) eqn:E3.
-    { pose proof (direct_LI0 i m _ st e (e_seq e :: received st) L Q He ltac:(lia) Hc) as L'.
+    { pose proof (direct_LI0 i m _ st e (e_seq e :: received st) L Q He ltac:(lia) Hc ltac:(intros s [<-|Hs]; auto)) as L'.
       pose proof (add_pending_next_mono _ _ _ _ L').
       assert (next (add_to_cache (set_received st (e_seq e :: received st)) e false) = next st + 1).
       { unfold add_to_cache; cbn. rewrite He. cbn. destruct (next st <=? e_seq e) eqn:E; lia. }
@@ -516,7 +557,7 @@ Proof.
     destruct (next st <? e_seq e) eqn:E4.
     { assert (LP : LI0 i m (o :: h) (set_pending (set_received st (e_seq e :: received st)) (pq_push e (pending st)))).
       { assert (Hhi : e_hi e = e_seq e) by (unfold e_hi; rewrite He; reflexivity).
-        apply push_LI0; rewrite ?Hhi; try assumption; try lia.
+        apply push_LI0; rewrite ?Hhi; try assumption; try lia; [|intros s [<-|Hs]; auto].
         intros s S1 S2. replace s with (e_seq e) by lia. assumption. }
       match goal with |- context[if ?c then _ else _] => destruct c end; [|cbn; lia].
       pose proof (add_pending_next_mono _ _ _ _ LP). cbn in H. exact H. }
@@ -532,7 +573,7 @@ Proof.
       apply (LI0_cons _ _ _ _ (ArriveRange lo hi a)) in L.
       assert (LP : LI0 i m (ArriveRange lo hi a :: h) (set_pending (set_received st (received st)) (pq_push (mkE lo hi KUnused a) (pending st)))).
       { assert (Hhi : e_hi (mkE lo hi KUnused a) = hi) by (unfold e_hi; cbn; destruct (hi =? 0) eqn:E; lia).
-        apply push_LI0; try assumption; rewrite ?Hhi; cbn [e_seq]; try lia.
+        apply push_LI0; try assumption; rewrite ?Hhi; cbn [e_seq]; try lia; [|intros s Hs; now left].
         intros s S1 S2. exists (ArriveRange lo hi a). split; [now left | cbn; lia]. }
       replace (set_pending st (pq_push (mkE lo hi KUnused a) (pending st)))
         with (set_pending (set_received st (received st)) (pq_push (mkE lo hi KUnused a) (pending st)))
